@@ -53,17 +53,21 @@ def const_values(src, impl):
     return out
 
 
-def callees(tree, acc):
+def callees(tree, acc, state_vars=None):
+    """Names called in a tree.  With `state_vars` (units with `self_calls_only`), `x.f(..)` counts only when
+    `x` is the state object: `self.write.write_all(..)` is not a call of the unit's own `write_all`."""
     if isinstance(tree, tuple):
         if tree and tree[0] == "mcall":
-            acc.add(tree[2])
+            r = strip_ref(tree[1])
+            if state_vars is None or (r[0] == "path" and len(r[1]) == 1 and r[1][0] in state_vars):
+                acc.add(tree[2])
         if tree and tree[0] == "call" and tree[1][0] == "path":
             acc.add(tree[1][1][-1])
         for x in tree[1:]:
-            callees(x, acc)
+            callees(x, acc, state_vars)
     elif isinstance(tree, list):
         for x in tree:
-            callees(x, acc)
+            callees(x, acc, state_vars)
 
 
 def topo(fns, u):
@@ -72,7 +76,7 @@ def topo(fns, u):
     deps = {}
     for f in fns:
         acc = set()
-        callees(f.body, acc)
+        callees(f.body, acc, u.state_vars if u.self_calls_only else None)
         deps[f.name] = [n for n in acc if n in names and n != f.name]
     out, state = [], {}
 
